@@ -731,7 +731,7 @@ fn extra_defs(out: &mut Out) {
     for id in 104..110 {
         let k = full_key(id);
         let ser = k.to_bytes();
-        let sort = k.inner.serialize();
+        let sort = crate::ast::bip67_sort(&k);
         let pkh = hash160::Hash::hash(&ser);
         out.line(&format!("D key {} {} {} {}", id, hex(&ser), hex(&sort), hex(pkh.as_byte_array())), "ok");
     }
